@@ -21,6 +21,7 @@ import (
 	"encoding/base64"
 	"encoding/json"
 	"fmt"
+	"sort"
 	"strings"
 	"testing"
 
@@ -119,24 +120,35 @@ type c25aTamper struct {
 	Value string `json:"value,omitempty"`
 }
 
-func c25aTampers(pkt, other *frame.SendPacket, emit func(t c25aTamper, tampered *frame.SendPacket)) {
+// With edge set only the bits of the first 2 / last 4 base64 bytes and first 2 / last 2 raw bytes are flipped.
+func c25aTampers(pkt, other *frame.SendPacket, edge bool, emit func(t c25aTamper, tampered *frame.SendPacket)) {
 	clone := func() *frame.SendPacket {
 		c := *pkt
 		c.Payload = append([]byte(nil), pkt.Payload...)
 		return &c
 	}
+	atEdge := func(i, n, head, tail int) bool { return !edge || i < head || i >= n-tail }
 	for bit := 0; bit < len(pkt.Payload)*8; bit++ {
+		if !atEdge(bit/8, len(pkt.Payload), 2, 4) {
+			continue
+		}
 		c := clone()
 		c.Payload[bit/8] ^= 1 << (bit % 8)
 		emit(c25aTamper{Kind: "ciphertext-text-bit", Index: bit}, c)
 	}
 	raw, _ := base64.StdEncoding.DecodeString(string(pkt.Payload))
 	for bit := 0; bit < len(raw)*8; bit++ {
+		if !atEdge(bit/8, len(raw), 2, 2) {
+			continue
+		}
 		r := append([]byte(nil), raw...)
 		r[bit/8] ^= 1 << (bit % 8)
 		c := clone()
 		c.Payload = []byte(base64.StdEncoding.EncodeToString(r))
 		emit(c25aTamper{Kind: "ciphertext-raw-bit", Index: bit}, c)
+	}
+	if edge {
+		return
 	}
 	block := raw
 	if len(block) > 16 {
@@ -224,6 +236,7 @@ type c25aReplay struct {
 	Send   c25aSend    `json:"send"`
 	Other  c25aSend    `json:"other_send"`
 	Tamper *c25aTamper `json:"tamper,omitempty"`
+	Edge   bool        `json:"edge_bits_only,omitempty"`
 }
 
 // c25aDecode feeds wire bytes to a fresh adapter on a fresh encrypted session.
@@ -237,7 +250,7 @@ func c25aDecode(k c25aKeys, mode string, wire []byte) (frames []frame.Frame, con
 	return
 }
 
-func c25aCheckPacket(r *ev.R, e *ev.Enum, k c25aKeys, mode string, m, other c25aSend, only *c25aTamper, kinds map[string]int64) {
+func c25aCheckPacket(r *ev.R, e *ev.Enum, system string, edge bool, k c25aKeys, mode string, m, other c25aSend, only *c25aTamper, kinds map[string]int64) {
 	_, sc, err := c25aSession(k, mode)
 	if err != nil {
 		r.HarnessError("session for %+v: %v", k, err)
@@ -265,7 +278,7 @@ func c25aCheckPacket(r *ev.R, e *ev.Enum, k c25aKeys, mode string, m, other c25a
 		if t == nil {
 			kind = "genuine"
 		}
-		r.Violation(ev.Violation{Fingerprint: v.fp, Message: v.msg, System: "adapter-send", Replay: c25aReplay{Kind: kind, Keys: k, Mode: mode, Send: m, Other: other, Tamper: t}})
+		r.Violation(ev.Violation{Fingerprint: v.fp, Message: v.msg, System: system, Replay: c25aReplay{Kind: kind, Keys: k, Mode: mode, Send: m, Other: other, Tamper: t, Edge: edge}})
 	}
 	if only == nil {
 		frames, consumed, derr, p := c25aDecode(k, mode, genuineWire)
@@ -286,7 +299,7 @@ func c25aCheckPacket(r *ev.R, e *ev.Enum, k c25aKeys, mode string, m, other c25a
 			report(v, nil)
 		}
 	}
-	c25aTampers(pkt, otherPkt, func(t c25aTamper, tampered *frame.SendPacket) {
+	c25aTampers(pkt, otherPkt, edge, func(t c25aTamper, tampered *frame.SendPacket) {
 		if only != nil && (only.Kind != t.Kind || only.Index != t.Index) {
 			return
 		}
@@ -385,12 +398,12 @@ func TestVerifC25Adapter(t *testing.T) {
 				r.Violation(ev.Violation{Fingerprint: v.fp, Message: v.msg, System: rf.System, Replay: rp})
 			}
 		case "genuine":
-			c25aCheckPacket(r, e, rp.Keys, rp.Mode, rp.Send, rp.Other, nil, nil)
+			c25aCheckPacket(r, e, rf.System, rp.Edge, rp.Keys, rp.Mode, rp.Send, rp.Other, nil, nil)
 			if r.ViolationCount() > 0 {
 				r.MarkReplayReproduced()
 			}
 		default:
-			c25aCheckPacket(r, e, rp.Keys, rp.Mode, rp.Send, rp.Other, rp.Tamper, nil)
+			c25aCheckPacket(r, e, rf.System, rp.Edge, rp.Keys, rp.Mode, rp.Send, rp.Other, rp.Tamper, nil)
 		}
 		e.Done(true, nil, "replay")
 		r.Sample(rp)
@@ -412,7 +425,7 @@ func TestVerifC25Adapter(t *testing.T) {
 				if other.PlainLen == m.PlainLen {
 					other.PlainLen += 16
 				}
-				c25aCheckPacket(r, e1, k, mode, m, other, nil, kinds)
+				c25aCheckPacket(r, e1, "adapter-send", false, k, mode, m, other, nil, kinds)
 				n++
 			}
 		}
@@ -426,6 +439,56 @@ func TestVerifC25Adapter(t *testing.T) {
 	r.Guard("adapter-tamper-kinds", len(kinds) >= 10 && e1.Outcome("ciphertext-raw-bit:rejected") > 1000 && e1.Outcome("msgkey-bit(after-genuine):rejected") > 1000,
 		"tamper kinds %d, raw ciphertext bits rejected %d, message-key bits (after genuine) rejected %d", len(kinds), e1.Outcome("ciphertext-raw-bit:rejected"), e1.Outcome("msgkey-bit(after-genuine):rejected"))
 	r.Sample(map[string]any{"case": "adapter tamper", "keys": keySets[0], "mode": "crypto", "send": menu[1], "tamper": "msgkey-bit #0", "outcome": "Decode error, no frame"})
+
+	// ---- decimal-length boundaries of the signed ClientSeq / ChannelType (32-bit ClientSeq on the wire)
+	e1b := r.NewEnum("adapter-send-decimal-boundaries")
+	seqSet := map[uint64]bool{0: true, 1: true, 9: true, 1<<31 - 1: true, 1 << 31: true, 1<<32 - 1: true, 1<<32 - 2: true}
+	for p := uint64(10); p < 1<<32; p *= 10 {
+		for _, v := range []uint64{p - 1, p, p + 1, p + p/10 - 1, p + p/10, p + 9, p + 10} {
+			if v < 1<<32 {
+				seqSet[v] = true
+			}
+		}
+	}
+	typeEdges := []uint8{0, 1, 2, 9, 10, 11, 19, 20, 99, 100, 101, 109, 110, 199, 200, 255}
+	bkinds := map[string]int64{}
+	bn := 0
+	var bseqs []uint64
+	for q := range seqSet {
+		bseqs = append(bseqs, q)
+	}
+	sort.Slice(bseqs, func(i, j int) bool { return bseqs[i] < bseqs[j] })
+	for _, q := range bseqs {
+		for ti := 0; ti < 256; ti++ {
+			isEdge := false
+			for _, t := range typeEdges {
+				isEdge = isEdge || int(t) == ti
+			}
+			if !th && !isEdge {
+				continue
+			}
+			for _, mode := range []string{"crypto", "keys"} {
+				// 33 plaintext bytes -> 48 cipher bytes -> 64 base64 characters without '=' padding
+				for _, l := range []int{33, 17} {
+					if mode == "keys" && (l != 33 || !isEdge) {
+						continue
+					}
+					m := c25aSend{q, "m1", "g1", uint8(ti), l}
+					other := m
+					other.PlainLen += 16
+					c25aCheckPacket(r, e1b, "adapter-send-decimal-boundaries", true, keySets[0], mode, m, other, nil, bkinds)
+					bn++
+				}
+			}
+		}
+	}
+	bb := map[string]any{"client_seqs": len(seqSet), "channel_types": ev.Pick(r, len(typeEdges), 256), "packets_x_sessions": bn, "plain_lengths": []int{33, 17}}
+	for k, c := range bkinds {
+		bb["tampers_"+k] = c
+	}
+	e1b.Done(true, bb, "every boundary ClientSeq below 2^32 (10^k and neighbours, x09/x10 range ends, 2^31, 2^32-1) x boundary ChannelType values (thorough: all 256): every bit of the first 2 / last 4 base64 bytes and first 2 / last 2 raw ciphertext bytes, alone and right after a genuine frame")
+	r.Guard("adapter-decimal-boundaries", e1b.Outcome("genuine-accepted") == int64(bn) && bn >= 1000 && e1b.Outcome("ciphertext-text-bit:rejected") >= int64(bn)*48,
+		"genuine accepted %d of %d, edge text bits rejected %d", e1b.Outcome("genuine-accepted"), bn, e1b.Outcome("ciphertext-text-bit:rejected"))
 
 	e2 := r.NewEnum("adapter-recv")
 	for _, k := range keySets {
